@@ -157,8 +157,24 @@ impl TryFrom<&Value> for f64 {
                 Ok(f64::try_from(&Value::Text(s))?)
             }
             Value::Number(v) => Ok(*v),
-            Value::Text(v) => Ok(v.parse::<f64>().unwrap_or(f64::NAN)),
+            Value::Text(v) => Ok(string_to_number(v)),
         }
+    }
+}
+
+/// XPath 1.0 4.4 `number`: optional white space, an optional minus sign, a Number
+/// (`Digits ('.' Digits?)? | '.' Digits`) and optional white space; any other string is NaN.
+/// (`str::parse::<f64>` alone also takes exponents, "inf", "nan", a plus sign, and no white space.)
+fn string_to_number(v: &str) -> f64 {
+    let t = v.trim_matches(|c| matches!(c, ' ' | '\t' | '\r' | '\n'));
+    let n = t.strip_prefix('-').unwrap_or(t);
+    let number = n.chars().all(|c| c.is_ascii_digit() || c == '.')
+        && n.chars().any(|c| c.is_ascii_digit())
+        && n.chars().filter(|c| *c == '.').count() <= 1;
+    if number {
+        t.parse::<f64>().unwrap_or(f64::NAN)
+    } else {
+        f64::NAN
     }
 }
 
